@@ -97,7 +97,7 @@ def generate(T, tier):
                 code.append(FRAME % {"unw": unw, "name": name, "expr": G.any_expr(mod, n, "bits"), "variant": m["variant"], "number": m["number"]})
                 hs.append({"name": "c09gen::frame_%s" % name, "group": "frame", "tier": "quick" if mod != "msg1008" else "thorough",
                            "bounds": "public MessageBuilder::build_message(Message::%s) with %d list elements: frame header, length, number, checksum placement" % (m["variant"], n)})
-            q = mod in QUICK and (n == ns[-1] or n == 0)
+            q = mod in QUICK and (n == ns[-1] or n == 0) and not (mod in ("msg1004", "msg1012") and n > 0)
             hs.append({"name": "c09gen::%s" % name, "group": "big" if cap >= 390 else "main", "tier": "quick" if q else "thorough",
                        "bounds": "%s with every list/string at %d elements; every integer over its full Rust type (out-of-range included), %s" % (mod, n, "every float over all bit patterns (NaN, inf, subnormal, huge)" if fmode == "bits" else "floats drawn from boundary candidates incl. NaN/inf (every bit pattern per field is covered by the field_* harnesses)")})
     # field level: every df! codec on every input value
